@@ -1,5 +1,6 @@
 import TD.C20.Lemmas
 import TD.C20.LemDat
+import TD.C20.LemEnc
 
 /-!
 # C20 — file type identification recognises every supported format and never crashes
@@ -255,6 +256,22 @@ example : ([32, 1, 0, 0] : Bytes) = [32, 1, 0, 0] ∨ ([32, 1, 0, 0] : Bytes) = 
 example : (List.replicate 276 65 : Bytes).length = 276 := List.length_replicate ..
 
 
+/-- **BIT — every file of the C13 encoder.**  For every non-empty list of well-formed log passes (any description, any
+1…20 channels, any number of data blocks and frames, any values) whose first header has the documented 8-byte tail
+(so that the description block is the documented 276 bytes), `TD.C13.Spec.encode` gives a file that is identified as
+`BIT` — independent of content and size, and of what the deep tests would say. -/
+theorem bit_identified_c13 (lisT : Bytes → LisRes) (datP : Bytes → Bool) (p : TD.C13.Spec.PassC) (ps : List TD.C13.Spec.PassC)
+    (h : p.wf) (htail : p.tail.length = 8) :
+    identify lisT datP (TD.C13.Spec.encode (p :: ps)) = "BIT" := by
+  obtain ⟨rest, hr⟩ := bit_encode_shape p ps h htail
+  rw [hr]
+  exact bit_identified lisT datP [32, 1, 0, 0] (TD.C13.Spec.headerBytes p) rest (Or.inl rfl) (headerBytes_length p h htail)
+
+example : identify (fun _ => .none) (fun _ => false) (TD.C13.Spec.encode [TD.C13.exPass]) = "BIT" ∨ TD.C13.exPass.tail.length ≠ 8 := by
+  by_cases h : TD.C13.exPass.tail.length = 8
+  · exact Or.inl (bit_identified_c13 _ _ _ _ TD.C13.exPass_wf h)
+  · exact Or.inr h
+
 /-! ## Recognition: RP66V1 -/
 
 /-- a positive decimal number right-justified in `w` characters, padded with blanks and/or zeros -/
@@ -368,6 +385,35 @@ theorem rp66_identified (lisT : Bytes → LisRes) (datP : Bytes → Bool) (s : S
   rw [identify_skip_magic lisT datP a0 _ (by unfold notMagicFirst; omega)]
   simp only [tests, List.filter, isMagic, Bool.not_true, Bool.not_false, firstMatch, runTest, hbit, hlas, htake, hv]
   rfl
+
+/-- **RP66V1 — every file of the C01 encoder.**  For every conformant storage unit label as written (`SULW`: any
+sequence number with `0`/blank fill, any `V1.dd`, any maximum record length with fill) whose 60 identifier bytes are
+printable ASCII (C01's conformance allows any bytes there; `_rp66v1_bytes` insists on `string.printable`), every list
+of logical records and every layout (segmentation, padding, checksums, visible record packing),
+`TD.C01.encode sul recs ℓ` is identified as `RP66V1`. -/
+theorem rp66_identified_c01 (lisT : Bytes → LisRes) (datP : Bytes → Bool) (sul : TD.C01.SULW) (recs : List TD.C01.LR)
+    (ℓ : TD.C01.Layout) (hs : sul.conformant = true)
+    (hid : ∀ c ∈ sul.ident, (9 ≤ c ∧ c ≤ 13) ∨ (32 ≤ c ∧ c ≤ 126)) :
+    identify lisT datP (TD.C01.encode sul recs ℓ) = "RP66V1" := by
+  obtain ⟨h1, hf1, hl1, ⟨a, b, hv, ha, hb⟩, h20, _, hf2, hl2, hidl⟩ := sul.conformant_iff hs
+  obtain ⟨_, hdig1, hhead1⟩ := TD.C01.decDigits_spec sul.seq
+  obtain ⟨d1, t1, e1, hd1a, hd1b⟩ := hhead1 h1
+  obtain ⟨_, hdig2, hhead2⟩ := TD.C01.decDigits_spec sul.maxLen
+  obtain ⟨d2, t2, e2, hd2a, hd2b⟩ := hhead2 (by omega)
+  let s : SUL := ⟨sul.seqFill ++ TD.C01.decDigits sul.seq, a, b, sul.maxFill ++ TD.C01.decDigits sul.maxLen, sul.ident⟩
+  have hconf : s.Conformant := by
+    refine ⟨⟨by simp [s, hl1], sul.seqFill, d1, t1, by simp [s, e1], c01_fill _ hf1, ⟨hd1a, hd1b⟩, ?_⟩, c01_digit a ha, c01_digit b hb,
+      ⟨by simp [s, hl2], sul.maxFill, d2, t2, by simp [s, e2], c01_fill _ hf2, ⟨hd2a, hd2b⟩, ?_⟩, hidl, hid⟩
+    · intro c hc; exact c01_digit c (hdig1 c (by rw [e1]; simp [hc]))
+    · intro c hc; exact c01_digit c (hdig2 c (by rw [e2]; simp [hc]))
+  have henc : TD.C01.encode sul recs ℓ = s.encode ++ (TD.C01.cutAll recs ℓ.recs).flatMap TD.C01.TSeg.bytes := by
+    simp [TD.C01.encode, TD.C01.encodeSUL, SUL.encode, s, hv, TD.C01.recordWord]
+  rw [henc]
+  exact rp66_identified lisT datP s hconf _
+
+/-- the C01 example file (padding, checksum, trailing length, encryption, three visible records) -/
+example : identify (fun _ => .none) (fun _ => false) (TD.C01.encode TD.C01.exSul TD.C01.exRecs TD.C01.exLayout) = "RP66V1" :=
+  rp66_identified_c01 _ _ _ _ _ (by decide) (by decide)
 
 /-- `   1V1.00RECORD 8192Default Storage Set…` is conformant -/
 example : SUL.Conformant ⟨[32, 32, 32, 49], 48, 48, [32, 56, 49, 57, 50], List.replicate 60 32⟩ :=
